@@ -1,11 +1,9 @@
 """Access to the *native* package (real NumPy floats, compiled extensions) built from the tree under check.
 Used by replay functions and bounded stand-ins.
 
-The compiled extension modules in /repo correspond to the .pyx files of the pinned commit (their SHA-256 are in
-pyx_baseline.json).  When the tree under check has the same .pyx texts, the package is imported from the tree as it is
-(with /repo's .so linked in when the tree is a scratch copy).  When a .pyx differs, the whole package is copied to a scratch
-directory outside /repo and /verif, the extensions are rebuilt there from the current .pyx (`setup.py build_ext --inplace`),
-and the package is imported from that copy, so that native replays and bounded checks always run the code under check."""
+The whole package is copied to a scratch directory outside /repo and /verif (one per source digest), the extensions are rebuilt there from
+the current .pyx (`setup.py build_ext --inplace`), and the package is imported from that copy, so that native replays and bounded checks always
+run the code under check and never a stale binary."""
 import fcntl
 import glob
 import hashlib
@@ -69,18 +67,10 @@ def _rebuilt_copy():
 def atomman():
     if _loaded[0] is not None:
         return _loaded[0]
-    root = REPO
-    if _pyx_changed():
-        root = _rebuilt_copy()
-    elif os.path.realpath(REPO) != '/repo':
-        for so in glob.glob('/repo/atomman/**/*.so', recursive=True):
-            rel = os.path.relpath(so, '/repo')
-            dst = os.path.join(REPO, rel)
-            if not os.path.exists(dst):
-                try:
-                    os.symlink(so, dst)
-                except OSError:
-                    pass
+    # The compiled extensions lying in a tree say nothing about which .pyx text they were built from (they are ignored build outputs, and a scratch copy of a
+    # changed tree carries the old binaries along), so they are never trusted: the package is always imported from a copy whose extensions were built from the
+    # .pyx files of the tree under check (one build per source digest, cached under the system temp directory, guarded by a file lock).
+    root = _rebuilt_copy()
     if os.path.realpath(root) != '/repo':
         for k in [k for k in sys.modules if k == 'atomman' or k.startswith('atomman.')]:
             del sys.modules[k]
